@@ -88,6 +88,22 @@ class Samplers(Part):
                     q['precision'] = table[tuple(q['bounds'])]
         ev = {"ev": "design", "kind": kind, "n": case.get("n", 0), "d": d, "k": case.get("k", 0), "m": [], "exact": True,
               "dims_ok": True, "inbox": True, "exc": ""}
+        if d >= 3 and (case["cseed"] % 5 == 0 or (kind == "grid" and case["cseed"] % 2 == 0)):
+            # the same parameter list has just served another design (Box-Behnken, Plackett-Burman, an earlier sampler): the declaration is
+            # what it was, and so is the design generated from it now
+            import copy
+            snap = copy.deepcopy(params)
+            for other in (rng.choice([ops.BoxBehnkenGenerator, ops.BoxBehnkenGenerator, ops.PlackettBurmanGenerator, ops.LHSGenerator]),):
+                try:
+                    g0 = other(params)
+                    if other is ops.LHSGenerator:
+                        g0.init(3)
+                    g0.generate()
+                except Exception:      # noqa -- the earlier design is history, not under test here
+                    pass
+            params_decl = snap
+        else:
+            params_decl = params
         gen = {"lhs": ops.LHSGenerator, "halton": ops.HaltonGenerator, "grid": ops.UniformGenerator, "random": ops.RandomGenerator}[kind](params)
         gen.init(case["k"] if kind == "grid" else case["n"])
         st, vs = observe(gen.generate)
@@ -108,10 +124,10 @@ class Samplers(Part):
             vs = vs2
         vs = [list(map(float, v)) for v in vs]
         ev["dims_ok"] = all(len(v) == d for v in vs)
-        ev["inbox"] = inbox(vs, params)
+        ev["inbox"] = inbox(vs, params_decl)
         if not ev["dims_ok"]:
             return [ev]
-        bs = [p['bounds'] for p in params]
+        bs = [p['bounds'] for p in params_decl]
         if kind == "lhs":
             n = len(vs)
             ev["m"] = [[min(n - 1, max(0, int(math.floor(unit(v[j], bs[j]) * n)))) for j in range(d)] for v in vs]
